@@ -138,6 +138,24 @@ def clean_env(load_vars=None):
     return env
 
 
+# ---------------------------------------------------------------- MOCKERY_* environment of the invoking shell
+ENV_POOL = [("MOCKERY_DIR", "mocks"), ("MOCKERY_DIR", "{{.InterfaceDir}}/m"), ("MOCKERY_TEMPLATE", "matryer"), ("MOCKERY_FORCE_FILE_WRITE", "TRUE"),
+            ("MOCKERY_FORCE_FILE_WRITE", "true"), ("MOCKERY_FILENAME", "env_mocks.go"), ("MOCKERY_ALL", "false"), ("MOCKERY_ALL", "true"),
+            ("MOCKERY_PKGNAME", "envpkg"), ("MOCKERY_TEMPLATE_DATA.x", "1"), ("MOCKERY_TEMPLATE_DATA.unroll-variadic", "false"),
+            ("MOCKERY_LOG_LEVEL", "debug"), ("MOCKERY_FORMATTER", "gofmt"), ("MOCKERY_RECURSIVE", "true"), ("MOCKERY_STRUCTNAME", "Env{{.InterfaceName}}"),
+            ("MOCKERY_BUILD_TAGS", "envtag"), ("MOCKERY_INCLUDE_INTERFACE_REGEX", "^Nothing$"), ("MOCKERY_REQUIRE_TEMPLATE_SCHEMA_EXISTS", "false"),
+            ("MOCKERY_TEMPLATE_SCHEMA", "env.schema.json")]
+ENV_CONFIG = ["/nonexistent/ci.yml", "elsewhere.yml", "other/keep2.yml", "<target>"]     # values of MOCKERY_CONFIG
+
+
+def draw_env(rng, with_config=True):
+    """a MOCKERY_* environment such as a CI shell has (the keys are those NewRootConfig honours for a normal run)"""
+    e = dict(rng.sample(ENV_POOL, rng.randint(1, 5)))
+    if with_config and rng.random() < 0.5:
+        e["MOCKERY_CONFIG"] = rng.choice(ENV_CONFIG)
+    return e
+
+
 # ---------------------------------------------------------------- YAML -> raw tree
 def raw_tree(node):
     """PyYAML node graph -> nested (key bytes, value) lists; no merge processing"""
@@ -224,7 +242,10 @@ def run_case(ctx, c):
     snap = lambda: {(k[3:] if k.startswith("wd/") else "../" + k): v for k, v in snapshot(sandbox).items() if k != "wd"}
     before = snap()
     cmd = [ctx.bins["mockery"], "init"] + (["--config", flagval] if flagval is not None else []) + ["--", os.fsdecode(c["pkg"])]
-    p = run(cmd, cwd=w, env=clean_env(), timeout=60)
+    extra = dict(c.get("env") or {})
+    if extra.get("MOCKERY_CONFIG") == "<target>":
+        extra["MOCKERY_CONFIG"] = flagval if flagval is not None else ".mockery.yml"
+    p = run(cmd, cwd=w, env=clean_env(extra), timeout=60)      # only the init step sees them; the file is loaded back without
     after = snap()
     o = {"exit": 0 if p.returncode == 0 else 1, "rc": p.returncode, "flag": flagval or "", "log": (p.stdout + p.stderr).decode(errors="replace")[-600:]}
     o["target_changed"] = before.get(rel) != after.get(rel)
@@ -347,7 +368,13 @@ def module_case(ctx, k, rng):
     env = go_env({"GOFLAGS": "-mod=mod"})
     env = {k_: v for k_, v in env.items() if not k_.startswith("MOCKERY_")}
     desc = {"module": mod, "package": pkgpath, "interfaces": sorted(names), "config": "conf/mockery.yml" if custom else ".mockery.yml (default)"}
-    p1 = run([ctx.bins["mockery"], "init"] + flag + [pkgpath], cwd=d, env=env, timeout=120)
+    ienv = dict(env)
+    if k % 2 == 1:       # every other module: init is run from a shell with MOCKERY_* set, the later plain run from a clean one
+        shell = draw_env(rng, with_config=False)
+        if rng.random() < 0.5: shell["MOCKERY_CONFIG"] = "/nonexistent/ci.yml"
+        ienv.update(shell)
+        desc["environment_of_init"] = shell
+    p1 = run([ctx.bins["mockery"], "init"] + flag + [pkgpath], cwd=d, env=ienv, timeout=120)
     if p1.returncode != 0:
         return desc, ["bootstrap-failed: mockery init exited %d: %s" % (p1.returncode, p1.stderr.decode(errors="replace")[-300:])]
     p2 = run([ctx.bins["mockery"]] + flag, cwd=d, env=env, timeout=600)
@@ -433,6 +460,8 @@ def gen_cases(rng, n):
 def describe(c, o=None):
     d = {"state": c["state"] + ("(%s)" % c.get("linkkind") if c["state"] == "IsDanglingIntoDir" else ""), "target": TARGETS[c["target"]][0], "package_path": c["pkg"].decode(errors="backslashreplace"),
          "package_path_hex": hx(c["pkg"]), "stream": c.get("stream", "")}
+    if c.get("env"):
+        d["environment_of_init"] = c["env"]
     if o is not None:
         d.update({"config_flag": o["flag"], "exit": o["rc"], "target_changed": o["target_changed"], "others_changed": o["others_changed"],
                   "written": (o.get("bytes") or b"").decode(errors="backslashreplace")[-400:], "showconfig_error": " ".join(o["show_err"].split())[:300],
@@ -442,7 +471,7 @@ def describe(c, o=None):
 
 
 def to_json(c):
-    return {"state": c["state"], "target": c["target"], "pkg": hx(c["pkg"]), "stream": c.get("stream", "main"), "linkkind": c.get("linkkind")}
+    return {"state": c["state"], "target": c["target"], "pkg": hx(c["pkg"]), "stream": c.get("stream", "main"), "linkkind": c.get("linkkind"), "env": c.get("env")}
 
 
 def check(ctx, only=None, probe_only=False):
@@ -473,10 +502,22 @@ def check(ctx, only=None, probe_only=False):
             cases.append({"state": "Absent", "target": t, "pkg": b"<<", "stream": "witness", "finding": "C18-merge-key-package-path"})
         for t, pkg in ((0, b"\n"), (1, b"\na"), (4, b"\t\n"), (3, b"\n\n\n")):
             cases.append({"state": "Absent", "target": t, "pkg": pkg, "stream": "witness", "finding": "C18-multiline-package-path"})
+    twins = []           # (index of the clean-environment run, index of the same run under a MOCKERY_* environment)
+    if only is None:
+        base = [i for i, c in enumerate(cases) if c.get("stream") in ("corpus", "matrix")] + \
+               [i for i, c in enumerate(cases) if c.get("stream") == "main" and rng.random() < 0.12]
+        for i in base:
+            cases.append(dict(cases[i], stream="env", env=draw_env(rng), twin=i))
     for i, c in enumerate(cases):
         c["id"], c["seed"] = "c%d" % i, rng.randrange(1 << 30)
         if c["state"] in ("NoParent", "ParentIsFile") and "/" not in TARGETS[c["target"]][2]:
             c["target"] = 3 if c["target"] % 2 else 5      # these states need a target inside a sub-directory
+    for i, c in enumerate(cases):
+        if "twin" in c and c["twin"] is not None and c["twin"] < len(cases):
+            t = cases[c["twin"]]
+            c["seed"], c["target"] = t["seed"], t["target"]      # same initial state, same old content, same link kind
+            if "linkkind" in t: c["linkkind"] = t["linkkind"]
+            twins.append((c["twin"], i))
     obs = pmap(lambda c: run_case(ctx, c), cases)
     oracle_fail, known_hits = {}, {}
     for i, (c, o) in enumerate(zip(cases, obs)):
@@ -489,6 +530,16 @@ def check(ctx, only=None, probe_only=False):
             oracle_fail[i] = e or ["the symptom of known finding %s no longer appears on its witness (fixed? then move it to 'fixed' and drop the guard)" % c["finding"]]
         elif e:
             oracle_fail[i] = e
+    # the written file must not absorb the invoking shell's environment: same exit status, same bytes, same changes
+    for a, b in twins:
+        oa, ob = obs[a], obs[b]
+        diff = []
+        if oa["exit"] != ob["exit"]: diff.append("exit status %d vs %d" % (oa["rc"], ob["rc"]))
+        if oa.get("bytes") != ob.get("bytes"): diff.append("the written bytes differ")
+        if (oa["target_changed"], oa["others_changed"]) != (ob["target_changed"], ob["others_changed"]): diff.append("different paths changed")
+        if diff and not cases[b].get("finding"):
+            oracle_fail.setdefault(b, []).insert(0, "environment-absorbed: `mockery init` under %s differs from the same run in a clean environment: %s" % (
+                " ".join("%s=%s" % kv for kv in sorted(cases[b]["env"].items())), "; ".join(diff)))
     for kid, ids in sorted(known_hits.items()):
         ctx.known("%s: %s [%d witness runs]" % (kid, known[kid]["what"], len(ids)))
     # plain `mockery` runs with the written file
@@ -540,7 +591,7 @@ def check(ctx, only=None, probe_only=False):
             "mismatching_cases": len(bad), "coq_errors": errs, "examples": detail})
         ctx.violation(rp, nofail=True)
     # evidence
-    hist = {"state": {}, "target": {}, "package_path_class": {}, "stream": {}}
+    hist = {"state": {}, "target": {}, "package_path_class": {}, "stream": {}, "init_environment": {}}
 
     def cls(p):
         try:
@@ -556,18 +607,21 @@ def check(ctx, only=None, probe_only=False):
         if re.fullmatch(r"[-+.0-9eExobn_:TZ]+|null|true|false|yes|no|on|off|y|n|~|\.inf|\.nan|-\.inf", s, re.I): return "looks-like-scalar"
         return "yaml-significant"
     for c in cases:
+        for k in (c.get("env") or {"(clean)": 1}):
+            hist["init_environment"][k] = hist["init_environment"].get(k, 0) + 1
         for k, v in (("state", c["state"]), ("target", TARGETS[c["target"]][0]), ("package_path_class", cls(c["pkg"])), ("stream", c.get("stream", "main"))):
             hist[k][v] = hist[k].get(v, 0) + 1
     distinct = len({(c["state"], c["target"], c["pkg"]) for c in cases if cls(c["pkg"]) != "plain" or c["state"] != "Absent"})
     ctx.write_evidence(gate, len(cases) + len(mod_results) + probe["rounds"], distinct,
                        "one evaluation = one `mockery init` run (with showconfig on the result), one init + plain `mockery` run in a scratch module, or one round of 8 concurrent init runs on one target; non-trivial = the target exists / has no directory, or the package path is not a plain identifier path; distinct by (state, target kind, package path bytes)",
                        [describe(c, o) for c, o in list(zip(cases, obs))[:60:9]],
-                       extra={"distribution": hist, "init_runs": len(cases), "concurrency_probe": {"concurrent_runs_per_round": 8, "rounds": probe["rounds"],
+                       extra={"distribution": hist, "init_runs": len(cases), "clean_vs_environment_pairs": len(twins), "concurrency_probe": {"concurrent_runs_per_round": 8, "rounds": probe["rounds"],
                                                                                      "unconfirmed_suspicious_rounds": len(probe["suspicious_first_batch"]) if not probe["confirmed"] else 0,
                                                                                      "confirmed_bad_rounds": len(probe["confirmed"])}, "module_runs": len(mod_results), "module_failures": len(mod_fail),
                               "model_mismatches": len(bad), "oracle_failures": len(oracle_fail),
                               "module_samples": [d for d, _ in mod_results[:3]]},
-                       assumptions=["the written file is loaded back with repo=surprise x=1 VAR=expanded in the environment, and paths containing $ % ~ ` a second time with them unset; the loader model (Misc/Init.v load) is a function of the file's bytes only - no environment",
+                       assumptions=["the model's init has no environment parameter (C18_environment_independent): initRun reads the --config flag and NewDefaultKoanf only; MOCKERY_CONFIG is honoured by the loader of a normal run but not by init (behaviour of the unchanged tree; the docs do not mention it for init), so a run under any MOCKERY_* environment must equal the clean-environment run byte for byte",
+                                    "the written file is loaded back with repo=surprise x=1 VAR=expanded in the environment, and paths containing $ % ~ ` a second time with them unset; the loader model (Misc/Init.v load) is a function of the file's bytes only - no environment",
                                     "yaml.v3 (encoder) and koanf's YAML parser are parameters of the model with a round-trip hypothesis; the correspondence compares at the level of key/value trees (PyYAML compose without merge processing) and through the real loader (`mockery showconfig`)",
                                     "write errors after the exclusive create (disk full) are not modelled",
                                     "config discovery of a plain `mockery` run (FindConfig prefers .mockery.yaml and walks up the directory tree) is outside the model: the scratch modules contain no other config file"])
@@ -585,4 +639,4 @@ def replay(ctx, path):
             return {"finding": "C18-merge-key-package-path" if is_merge_key(pkg) else "C18-multiline-package-path"}
         return {}
     check(ctx, only=[{"state": c["state"], "target": c["target"], "pkg": bytes.fromhex(c["pkg"]), "stream": c.get("stream", "main"),
-                      **({"linkkind": c["linkkind"]} if c.get("linkkind") else {}), **fi(c)} for c in cs])
+                      **({"linkkind": c["linkkind"]} if c.get("linkkind") else {}), **({"env": c["env"]} if c.get("env") else {}), **fi(c)} for c in cs])
